@@ -127,3 +127,7 @@ Definition tq_stmt_of (s : select) : tq_stmt :=
 (* the tree for the request string is the tree for the marker with the marker replaced by the intended bytes in every value *)
 Definition tq_marker_subst (marker want : string) (base : select) : select :=
   tq_subst_sel (Quote.replace_all marker want) base.
+
+(* ---------- TraceQL trees that differ only in their values ---------- *)
+Definition tq_erase : expr -> expr := tq_subst (fun _ => EmptyString).
+Definition tq_erase_sel : select -> select := tq_subst_sel (fun _ => EmptyString).
